@@ -27,6 +27,9 @@ func oracle(r *hx.Run, id string, c dialx.Case, o dialx.Obs) {
 		calls = 4
 	}
 	bound := dialx.Bound(dialx.TimeoutFor(c))
+	if c.Kind == "sess2" {
+		calls = 5
+	}
 	if o.Hung || o.Elapsed > bound*time.Duration(calls) {
 		at := o.LastVerb
 		if at == "" {
@@ -35,8 +38,12 @@ func oracle(r *hx.Run, id string, c dialx.Case, o dialx.Obs) {
 		if c.HS == "stall" {
 			at = "TLS-HANDSHAKE"
 		}
+		call := o.HungCall
+		if call == "" {
+			call = c.Kind
+		}
 		r.Fail(id, "blocked-at-"+at, fmt.Sprintf("%s did not return within %v with WithTimeout(%v): the server went silent after %s; reads without a deadline: %d",
-			c.Kind, bound, dialx.TimeoutFor(c), o.Srv, o.Unarmed))
+			call, bound, dialx.TimeoutFor(c), o.Srv, o.Unarmed))
 	}
 }
 
@@ -60,6 +67,10 @@ func Run(r *hx.Run, replay []hx.Case) {
 		return c.HS == "stall" || c.Mute >= 0 || strings.Contains(strings.Join(c.Script, ","), "stall")
 	}
 	dialx.RunCases(r, pki, cases, ids, 24, nontriv, oracle)
+	r.Notes["blocked_cases"] = dialx.Blocked()
+	if dialx.Blocked() >= dialx.MaxBlocked {
+		r.Notes["stopped_early"] = "more than MaxBlocked cases did not return: the remaining cases were skipped"
+	}
 	r.Notes["timeout_ms"] = dialx.StallTimeout.Milliseconds()
 	r.Notes["bound"] = dialx.Bound(dialx.StallTimeout).String()
 }
@@ -74,7 +85,7 @@ func generate(r *hx.Run, pki *dialx.PKI) []dialx.Case {
 	}
 	modes := []mode{{"N", false, dialx.OtherMem}, {"M", false, dialx.OtherMem}, {"O", false, dialx.OtherMem}, {"M", true, "127.0.0.1"}}
 	auths := []string{"NOAUTH", "LOGIN", "CRAM-MD5"}
-	kinds := []string{"dial", "das", "sess"}
+	kinds := []string{"dial", "das", "sess", "sess2"}
 	if thorough {
 		auths = append(auths, "PLAIN", "XOAUTH2", "AUTODISCOVER", "LOGIN-NOENC")
 	}
@@ -86,6 +97,11 @@ func generate(r *hx.Run, pki *dialx.PKI) []dialx.Case {
 					return out
 				}
 				if !thorough && strings.HasPrefix(a, "SCRAM") && k != "dial" {
+					continue
+				}
+				// a second Send on the persistent connection (sess2): quick tier for the cleartext and the STARTTLS mode,
+				// without authentication
+				if k == "sess2" && !thorough && (a != "NOAUTH" || m.ssl || m.pol == "O") {
 					continue
 				}
 				au := a
@@ -158,7 +174,7 @@ func generate(r *hx.Run, pki *dialx.PKI) []dialx.Case {
 					out = append(out, c)
 				}
 				// replies muted from the k-th server write on (cleartext sessions: one write per reply / 334 prompt)
-				if m.pol == "N" && !m.ssl && k != "sess" {
+				if m.pol == "N" && !m.ssl && k != "sess" && k != "sess2" {
 					lim := n + 3
 					for q := 0; q < lim; q++ {
 						c := base
